@@ -19,6 +19,8 @@ for d in sorted(glob.glob("/verif/benign/C*_*")) + sorted(glob.glob("/verif/beni
         v = "patch does not apply to the current tree"
     else:
         v = "ALARM: " + r[:80]
+    if m.get("integrator_note"):
+        v = "alarm is CORRECT (rewrite not harmless): " + m["integrator_note"][:300]
     what = m.get("what", "").replace("|", "/").replace("\n", " ")[:260]
     rows.append(f"| {n} | {m['property']} | {'yes' if m.get('rng_changed') else ''} | {what} | {v} |")
 out = ["# Harmless rewrites (false-alarm suite)", "",
